@@ -129,6 +129,17 @@ func corpusC02() []*Case {
 		[]Pkg{pk("w", "1", "a", "v"), pk("a", "1"), pk("p", "1").prov("v=1"), pk("on-v", "1").iif("v"), pk("on-p", "1").iif("p"),
 			pk("a-doc", "1.0").iif("a"), pk("a-doc", "2.0").iif("a"), pk("u", "1", "a-doc"), pk("a-doc-x", "1").iif("a-doc=2.0"), pk("a-doc-y", "1").iif("a-doc=1.0")},
 		w("w"), w("u"), w("u", "w"), w("w", "u"), w("a-doc=1.0", "w")))
+	// disqualifyConflicts / conflictingVersion: two builds of one name share a versioned provide at the SAME version; once one is
+	// chosen through the provide (no dependencies of its own, so never entered in `selected`) the other must be disqualified,
+	// otherwise a later constraint by name picks it and the de-duplication by name drops it (seeded change C02-4)
+	cs = append(cs, single("two builds share a versioned provide at one version (disqualifyConflicts)",
+		[]Pkg{pk("libfoo", "1.4.0-r0").prov("so:libfoo.so.1=1"), pk("libfoo", "2.0.0-r0").prov("so:libfoo.so.1=1"),
+			pk("app", "1.0.0-r0", "so:libfoo.so.1"), pk("app2", "1.0.0-r0", "so:libfoo.so.1=1"), pk("plugin", "1.0.0-r0", "libfoo<2"), pk("plugin2", "1.0.0-r0", "libfoo>=2")},
+		w("app", "plugin"), w("plugin", "app"), w("app", "plugin2"), w("app2", "plugin"), w("plugin", "app2"), w("app"), w("plugin"), w("so:libfoo.so.1", "libfoo<2")))
+	cs = append(cs, single("two different names share a versioned provide: same version, other version, unversioned",
+		[]Pkg{pk("impl-a", "1.0").prov("virt=1"), pk("impl-b", "2.0").prov("virt=1"), pk("impl-c", "3.0").prov("virt=2"), pk("impl-d", "0.5").prov("virt"),
+			pk("u1", "1", "virt"), pk("u2", "1", "impl-a"), pk("u3", "1", "impl-b"), pk("u4", "1", "virt=2"), pk("u5", "1", "impl-d")},
+		w("u1", "u2"), w("u2", "u1"), w("u1", "u3"), w("u1", "u4"), w("u4", "u1"), w("u1", "u5"), w("u5", "u1"), w("virt", "impl-a"), w("impl-a", "impl-b")))
 	return cs
 }
 
